@@ -66,6 +66,17 @@ impl DiffFlagDefs {
             _ => return Err(invalid_definition()),
         };
 
+        // A name may only ever refer to one flag; otherwise labels printed for one flag
+        // would be parsed back as the other.  (this includes the built-in digit names)
+        if let Some(&other_index) = self.by_name.get(&name) {
+            if other_index != index.value as u32 {
+                return Err(error!(
+                    message("difficulty flag name {:?} is already used for flag {}", name, other_index),
+                    primary(str, "ambiguous flag name"),
+                ));
+            }
+        }
+
         self.define_flag(name, index.value as _, enable);
         Ok(())
     }
